@@ -380,6 +380,12 @@ def worker(job):
         elif kind == 'hms':
             R.func = 'athlib.parse_hms'
             R.explore(body_hms(job[1]), 'parse_hms %r' % (job[1],))
+        elif kind == 'hms-history':
+            # the same clauses after an earlier parse_hms call for a text of the sibling shape (same fields, the last one spelt with /
+            # without a fraction) with digits of its own: the answer, its type included, must not depend on what was parsed before
+            R.func = 'athlib.parse_hms'
+            R.prime_body = body_hms(job[2])
+            R.explore(body_hms(job[1]), 'parse_hms %r after parse_hms %r' % (job[1], job[2]))
         else:
             R.func = 'athlib.parse_hms'
             R.explore(body_arb(job[1]), 'parse_hms arbitrary text of %d cells' % job[1])
@@ -412,10 +418,14 @@ def run(chk, only=None):
                 continue
             for seps in itertools.product(':;', repeat=nfields - 1):
                 jobs.append(('hms', (fs, seps), budget))
+                if len(set(seps)) <= 1 and all(f[1] is None for f in fs[:-1]) and fs[-1][1] in (None, 1):
+                    sib = fs[:-1] + ((fs[-1][0], 1 if fs[-1][1] is None else None),)
+                    jobs.append(('hms-history', (fs, seps), (sib, seps), budget))
     for n in range(0, 5 if quick else 7):
         jobs.append(('arb', n, budget))
     if only:
         jobs = [j for j in jobs if j[0] == only]
+    n_hist = sum(1 for j in jobs if j[0] == 'hms-history')
     chk.functions = ['athlib.utils.round_up_str_num', 'athlib.utils.format_seconds_as_time', 'athlib.utils.parse_hms', 'athlib.utils.str2num']
     chk.stubs = ["'%.8f' % x: the text denotes round(x*10**8) (correct rounding of CPython float formatting; ties may go either way) - symrun/dtoa.py",
                  'float arithmetic in the reals-with-monotone-rounding model (relative error 2**-53 per operation, integers exact); durations as reals in [0, 360000) over-approximate the doubles',
@@ -423,6 +433,7 @@ def run(chk, only=None):
                  'repr(float) is NOT modelled: a change that routes a symbolic float through repr()/str() makes the run inconclusive (exit 2)']
     chk.bounds = {'round_up_str_num': 'integer part 0-4 digits (leading zeros included), optional point, 0-7 fraction digits, prec 0-5, maxDP default 5',
                   'format_seconds_as_time': 'seconds = k/1000 for 0 <= k < 3.6e8, any integer < 360000, any real in [0, 360000); prec 0-3',
+                  'parse_hms_history': '%d (shape, sibling shape) pairs: parse_hms on a text of the sibling shape (own symbolic digits) first, then the clauses' % n_hist,
                   'parse_hms': '1-3 fields of 1-3 digits with optional fraction of 0-3 digits, each separator : or ; (mixed included); arbitrary texts of up to %d cells over %r' % (4 if quick else 6, ARB_ALPHABET)}
     chk.outside = ['durations of 100 h and more; negative durations; non-ASCII digits; exponent / inf / nan / underscore texts']
     if not only:
